@@ -268,33 +268,6 @@ structure SchemaOK (env : Env) : Prop where
     ((allFields env (includeFuel env) n).map (·.name)).Nodup
   membersNodup : ∀ n hn ms, env.find n = some (.union hn ms) → (ms.map (·.1)).Nodup
 
-def normPrim : Prim → Value → Value
-  | .f32, .f32 b => .f32 (normF Strconv.f32 b)
-  | .f64, .f64 b => .f64 (normF Strconv.f64 b)
-  | _, v => v
-
-/-- the value a reader returns for an encoded `v`: own defaults filled in, entries in ascending
-key order, NaN canonical -/
-def norm (env : Env) : Nat → Ty → Value → Value
-  | 0, _, v => v
-  | f + 1, ty, v =>
-    match ty, v with
-    | .prim p, v => normPrim p v
-    | .arr t, .arr vs => .arr (vs.map (norm env f t))
-    | .map t, .map es => .map (sortByKey (es.map (fun e => (e.1, norm env f t e.2))))
-    | .ref n, v =>
-      match env.find n, v with
-      | some (.typeref p), v => normPrim p v
-      | some (.record _ own), .record fs =>
-        (match setFields (allFields env (includeFuel env) n) fs with
-        | some triples =>
-          .record (populateDefaults own (sortByKey (triples.map (fun x => (x.1, norm env f x.2.1 x.2.2)))))
-        | none => v)
-      | some (.union _ members), .union ms =>
-        .union (sortByKey ((setMembers members ms).map (fun x => (x.1, norm env f x.2.1 x.2.2))))
-      | _, v => v
-    | _, v => v
-
 /-! ### the induction -/
 
 /-- what the round trip needs of a format: keys and leaves read back -/
